@@ -59,6 +59,34 @@ type Handler struct {
 	NT  string
 	Fn  *ssa.Function
 	Pos token.Pos
+	// Bind: for a handler that is a closure built by a factory (`handlers[nt] = binaryOp(add)`): what each free
+	// variable of the closure holds, in terms of the values at the registration
+	Bind map[*ssa.FreeVar]ssa.Value
+}
+
+// boundFunc: the function a callee value of the handler body stands for: a function itself, or a free variable of the
+// handler's closure that was bound to one at the registration.
+func (h *Handler) boundFunc(v ssa.Value) *ssa.Function {
+	v = stripConv(v)
+	if ld, ok := v.(*ssa.UnOp); ok && ld.Op == token.MUL {
+		v = ld.X
+	}
+	switch x := v.(type) {
+	case *ssa.Function:
+		return x
+	case *ssa.FreeVar:
+		if h == nil || h.Bind == nil {
+			return nil
+		}
+		switch b := stripConv(h.Bind[x]).(type) {
+		case *ssa.Function:
+			return b
+		case *ssa.MakeClosure:
+			f, _ := b.Fn.(*ssa.Function)
+			return f
+		}
+	}
+	return nil
 }
 
 // Builtin is one entry of the builtin function table.
@@ -294,11 +322,16 @@ func (w *World) extractHandlers(f *Facts) {
 					return
 				}
 				var hf *ssa.Function
+				var bind map[*ssa.FreeVar]ssa.Value
 				switch v := stripConv(val).(type) {
 				case *ssa.Function:
 					hf = v
 				case *ssa.MakeClosure:
 					hf, _ = v.Fn.(*ssa.Function)
+				case *ssa.Call:
+					// a factory of the package that returns a closure: the handler is the closure, its free
+					// variables hold the factory's arguments
+					hf, bind = closureFromFactory(v)
 				}
 				if hf == nil {
 					f.err = append(f.err, "handler registration with non-function value at "+w.pos(pos))
@@ -308,7 +341,7 @@ func (w *World) extractHandlers(f *Facts) {
 				if old, dup := f.Handlers[nt]; dup && old.Fn != hf {
 					f.HandlerDup = append(f.HandlerDup, nt)
 				}
-				f.Handlers[nt] = &Handler{NT: nt, Fn: hf, Pos: pos}
+				f.Handlers[nt] = &Handler{NT: nt, Fn: hf, Pos: pos, Bind: bind}
 			}
 			// `for nt, fn := range table { handlers[nt] = fn }`: the entries of the table that is ranged over
 			if kx, ok := mu.Key.(*ssa.Extract); ok {
@@ -529,4 +562,59 @@ func (w *World) mapLiteralEntries(v ssa.Value, depth int) ([]mapEntry, bool) {
 		}
 	}
 	return nil, false
+}
+
+// closureFromFactory: call is `factory(args...)` where factory (a function of the repository) has a single return of
+// a function literal; returns that literal and, for each of its free variables that captures a parameter of the
+// factory, the argument passed for that parameter at this call.
+func closureFromFactory(call *ssa.Call) (*ssa.Function, map[*ssa.FreeVar]ssa.Value) {
+	sc := staticCallee(call)
+	if sc == nil || !inRepo(sc) || len(sc.Blocks) == 0 {
+		return nil, nil
+	}
+	var mc *ssa.MakeClosure
+	n := 0
+	allInstrs(sc, func(in ssa.Instruction) {
+		if r, ok := in.(*ssa.Return); ok && len(r.Results) == 1 {
+			n++
+			if m, ok := stripConv(r.Results[0]).(*ssa.MakeClosure); ok {
+				mc = m
+			}
+		}
+	})
+	if n != 1 || mc == nil {
+		return nil, nil
+	}
+	fn, _ := mc.Fn.(*ssa.Function)
+	if fn == nil {
+		return nil, nil
+	}
+	bind := map[*ssa.FreeVar]ssa.Value{}
+	for i, b := range mc.Bindings {
+		if i >= len(fn.FreeVars) {
+			break
+		}
+		var param *ssa.Parameter
+		switch x := b.(type) {
+		case *ssa.Parameter:
+			param = x
+		case *ssa.Alloc:
+			for _, st := range storesInto(x) {
+				if st.Addr == ssa.Value(x) {
+					if p, ok := st.Val.(*ssa.Parameter); ok {
+						param = p
+					}
+				}
+			}
+		}
+		if param == nil {
+			continue
+		}
+		for k, p := range sc.Params {
+			if p == param && k < len(call.Call.Args) {
+				bind[fn.FreeVars[i]] = call.Call.Args[k]
+			}
+		}
+	}
+	return fn, bind
 }
